@@ -203,6 +203,7 @@ def judge(norm, node):
                     blk.remove(st)
             R().visit(node)
     set_parents(node)
+    class_level_coverage(norm, node, info)
     valid_in_loops = set()
     body = node.body
     params = {a.arg for a in node.args.posonlyargs + node.args.args + node.args.kwonlyargs} - {'self'}
@@ -355,6 +356,83 @@ def judge(norm, node):
         set_parents(node)
         defs = Defs(body)
     return valid_in_loops
+
+
+DETERMINED_BY = {'domain': {'attrs', 'shape'}}
+DERIVED = {'graph': {'cliques', 'domain'}}          # JunctionTree.graph = _make_graph() of the cliques and the domain
+
+
+def class_level_coverage(norm, node, info):
+    """a table in the CLASS body filled by this method (whatever the exact shape of the memo code): every instance attribute the method's
+    computation reads must be named by the key - the whole attribute, or all the parts that determine it"""
+    from ..normalise import Defs, expand
+    defs = Defs(node.body)
+    for st in ast.walk(node):
+        if not (isinstance(st, ast.Assign) and len(st.targets) == 1 and isinstance(st.targets[0], ast.Subscript)):
+            continue
+        X = self_attr(st.targets[0].value)
+        if X is None or info.scope(X) != 'class' or not is_table(info, X):
+            continue
+        K = expand(st.targets[0].slice, defs, comps=True)
+        if isinstance(K, ast.Name):
+            # a key bound more than once (`key = None` ... `key = (..)`): the definitions that are not None
+            cands = [a_.value for a_ in ast.walk(node) if isinstance(a_, ast.Assign) and len(a_.targets) == 1 and U(a_.targets[0]) == K.id
+                     and not (isinstance(a_.value, ast.Constant) and a_.value.value is None)]
+            if len(cands) == 1:
+                K = expand(cands[0], defs, comps=True)
+                set_parents(K)
+        named = {}
+        for n in ast.walk(K):
+            if isinstance(n, ast.Attribute) and self_attr(n.value) is not None:
+                named.setdefault(self_attr(n.value), set()).add(n.attr)          # self.a.part
+            a = self_attr(n)
+            if a is not None:
+                named.setdefault(a, set())
+        whole = {self_attr(n) for n in ast.walk(K) if self_attr(n) is not None and not isinstance(getattr(n, '_mparent', None), ast.Attribute)}
+        # what the method (and the methods it calls on self) reads
+        read = set()
+        seen = set()
+        todo = [norm.fi.name]
+        while todo:
+            m = todo.pop()
+            if m in seen or m not in info.methods:
+                continue
+            seen.add(m)
+            fn = node if m == norm.fi.name else info.methods[m].node
+            for n in ast.walk(fn):
+                a = self_attr(n)
+                if a is None:
+                    continue
+                if a in info.methods:
+                    todo.append(a)
+                elif isinstance(n.ctx, ast.Load) and a != X:
+                    read.add(a)
+        written_here = {self_attr(t) for n in ast.walk(node) if isinstance(n, ast.Assign) for t in n.targets} - {None}
+        missing = []
+
+        def covered(a, depth=0):
+            if a in whole:
+                return True
+            parts = named.get(a)
+            if parts is not None and a in DETERMINED_BY and DETERMINED_BY[a] <= parts:
+                return True
+            if a in DERIVED and depth < 3:
+                return all(covered(b, depth + 1) for b in DERIVED[a])
+            return False
+        for a in sorted(read - written_here):
+            if covered(a):
+                continue
+            parts = named.get(a)
+            if parts is not None and a in DETERMINED_BY and DETERMINED_BY[a] <= parts:
+                continue
+            if parts:
+                missing.append('self.%s (only %s of it)' % (a, ', '.join(sorted(parts))))
+            elif a not in named:
+                missing.append('self.' + a)
+        if missing:
+            norm.memo_issues.append((st, 'self.' + X, U(st.targets[0].slice),
+                                     ['<the table is a class attribute shared by every %s, and its entries are computed from %s, which the key `%s` does not '
+                                      'name: an entry stored by one object answers for another that differs there>' % (info.clsname, ', '.join(missing), U(K)[:80])]))
 
 
 def blocks(node):
